@@ -41,6 +41,7 @@ type exchange struct {
 	respErr string          // host answers with this error instead
 	errType types.Specifier // RHP3: the error's type and data members, when the host sets them
 	errData []byte
+	errSet  bool
 	reqEnc  []byte
 	respEnc []byte
 	maxReq  uint64 // limit the reader passes
@@ -149,8 +150,10 @@ func buildExchanges(t *sim.Tape, v int, overlimit bool) []exchange {
 			if len(ex.respErr) > 8 && t.Chance(1, 2) {
 				ex.respErr = ex.respErr[:len(ex.respErr)/2] + ": " + ex.respErr[len(ex.respErr)/2:]
 			}
-			if v == 3 && t.Chance(1, 2) {
-				ex.errType = types.NewSpecifier(pick(t, "BadRequest", "HostFault", "x"))
+			if (v == 3 && t.Chance(1, 2)) || (v == 2 && t.Chance(1, 3)) {
+				// (an error's members travel as they are, whichever of them are set)
+				ex.errSet = true
+				ex.errType = types.NewSpecifier(pick(t, "BadRequest", "HostFault", "x", ""))
 				ex.errData = sim.HashBytes("errdata", uint64(i), 2, t.Range(0, 40))
 			}
 		}
@@ -276,8 +279,8 @@ func runRHP2(s *Session, exs []exchange, wrongKey bool) {
 			var re *rhp2.RPCError
 			switch {
 			case ex.respErr != "" && errors.As(err, &re):
-				if re.Description != ex.respErr {
-					e.violate("C19", "rhp2-error-altered", fmt.Sprintf("exchange %d: error %q arrived as %q", i, ex.respErr, re.Description))
+				if re.Description != ex.respErr || (ex.errSet && (re.Type != ex.errType || !bytes.Equal(re.Data, ex.errData))) {
+					e.violate("C19", "rhp2-error-altered", fmt.Sprintf("exchange %d: error (type %v, data %x, %q) arrived as (type %v, data %x, %q)", i, ex.errType, ex.errData, ex.respErr, re.Type, re.Data, re.Description))
 				}
 				e.inc("rpc.error-delivered")
 				e.logf("ex %d %s: rpc error delivered", i, ex.name)
@@ -352,6 +355,8 @@ func runRHP2(s *Session, exs []exchange, wrongKey bool) {
 				// the error as the host's code has it: plain, an RPCError, or an RPCError
 				// wrapped with context (which travels as its whole text)
 				switch k := strings.LastIndex(ex.respErr, ": "); {
+				case ex.errSet:
+					err = t.WriteResponseErr(&rhp2.RPCError{Type: ex.errType, Data: ex.errData, Description: ex.respErr})
 				case len(ex.respErr)%3 == 1 && k > 0:
 					err = t.WriteResponseErr(fmt.Errorf("%s: %w", ex.respErr[:k], &rhp2.RPCError{Description: ex.respErr[k+2:]}))
 				case len(ex.respErr)%3 == 2:
@@ -492,7 +497,7 @@ func runRHP3(s *Session, exs []exchange, wrongKey bool) {
 			}
 			e.inc("rpc.read")
 			if ex.respErr != "" {
-				if ex.errType != (types.Specifier{}) {
+				if ex.errSet {
 					err = st.WriteResponseErr(&rhp3.RPCError{Type: ex.errType, Data: ex.errData, Description: ex.respErr})
 				} else {
 					err = st.WriteResponseErr(errors.New(ex.respErr))
